@@ -38,6 +38,7 @@ type GenOpts struct {
 	UnlistedNames []string // pool for field names in positions C15 does not list ($group / $project / $addFields keys, search paths)
 	MatchPool     []string // C14: names that match the configured regexp (nil = feature off)
 	NamePatterns  bool     // C14: a free choice of which generated names are taken from MatchPool
+	Spellings     bool     // every case is also fed in 4 other JSON spellings of the same line; the outputs must be identical
 	Scale         bool     // the layer is a scale layer (zz_verif_scale.go): kind x size x leaf variant instead of slot x productions
 	ScaleThorough bool     // scale layer: the larger size ranges
 }
